@@ -81,6 +81,7 @@ class SimFS:
         self.fds = {}
         self._next_fd = FD_BASE
         self.open_files = []  # every OpenFile ever handed out and not yet closed
+        self.fd_limit = None  # RLIMIT_NOFILE of the simulated process (descriptors + open file objects)
         self.other_device_prefix = None  # e.g. /SIMFS/tmp when the temp directory is another file system
         self.unlink_log = []  # (path, ino, atime, mtime, size) for every unlink/replace victim
         self.mutations = 0
@@ -316,6 +317,8 @@ class SimFS:
     # --------------------------------------------------------------- open files
     def _open(self, path, readable, writable, append, create, excl, trunc, mode=0o666, kind="open"):
         self.hook(kind, path, mut=(create or trunc))
+        if self.fd_limit is not None and len(self.open_files) >= self.fd_limit:
+            raise _err(errno.EMFILE, path)
         parent, name = self._lookup(path, want_parent=True)
         node = parent.children.get(name)
         now = self.clock.stamp()
